@@ -507,6 +507,144 @@ Check C20_powi_model_negative : forall j, -4 <= j <= -1 ->
 Print Assumptions C20_powi_model_negative.
 Print Assumptions C20_names.
 
+(* ====================================================================================
+   EXTENSION ROUND — the executable library models of coq/DisplayNum.v (the ones the DISPLAY
+   correspondence runs against the Rust code) are PROVED to satisfy the specifications that
+   C20_accuracy assumes of core::fmt / dec2flt, one theorem per specification
+   (proofs/DisplayNumDischarge1..4.v).  With them C20_accuracy_full is a theorem
+   (C20_accuracy_exec); its only remaining hypothesis is log10_sane on libm's log10.
+   ==================================================================================== *)
+Require Import Blots.proofs.DisplayNumDischarge1 Blots.proofs.DisplayNumDischarge2
+               Blots.proofs.DisplayNumDischarge3 Blots.proofs.DisplayNumDischarge4
+               Blots.proofs.DisplayNumDischarge5.
+(* the imported proof files open R_scope; restore the scopes of this file *)
+Open Scope char_scope.
+Open Scope Z_scope.
+
+(* ---- {:.N$}: the model has the documented shape -?d+(.d{N})? for every finite x, every N >= 0 ---- *)
+Theorem C20_fmt_prec_model_shape : forall x n,
+  is_finite x = true -> 0 <= n -> prec_shape n (fmt_prec_exec x n) = true.
+Proof. exact fmt_prec_exec_shape. Qed.
+Check C20_fmt_prec_model_shape : forall x n,
+  is_finite x = true -> 0 <= n -> prec_shape n (fmt_prec_exec x n) = true.
+Print Assumptions C20_fmt_prec_model_shape.
+
+(* ---- {:.N$}: the model prints the integer round_half_even(|x| * 10^N) (prec_q, exact Z arithmetic
+        on the binary expansion m * 2^e) over 10^N, with the sign of x: an exact rational identity ---- *)
+Theorem C20_fmt_prec_model_value : forall x n, is_finite x = true -> 0 <= n ->
+  denote_plain (fmt_prec_exec x n) = Qmake (cond_Zopp (nsign x) (prec_q x n)) (Z.to_pos (10 ^ n)).
+Proof. exact fmt_prec_exec_value. Qed.
+Check C20_fmt_prec_model_value : forall x n, is_finite x = true -> 0 <= n ->
+  denote_plain (fmt_prec_exec x n) = Qmake (cond_Zopp (nsign x) (prec_q x n)) (Z.to_pos (10 ^ n)).
+Print Assumptions C20_fmt_prec_model_value.
+
+(* ---- {:.N$}: hence the printed decimal is a nearest multiple of 10^-N of x — for EVERY N >= 0
+        (C20_accuracy needs N <= 18 only) ---- *)
+Theorem C20_fmt_prec_model_accurate : forall m dp, is_finite m = true -> 0 <= dp ->
+  (Rabs (Q2R (denote_plain (fmt_prec_exec m dp)) - RV m) <= / 2 * p10 (- dp))%R.
+Proof. exact fmt_prec_exec_accurate. Qed.
+Check C20_fmt_prec_model_accurate : forall m dp, is_finite m = true -> 0 <= dp ->
+  (Rabs (Q2R (denote_plain (fmt_prec_exec m dp)) - RV m) <= / 2 * p10 (- dp))%R.
+Print Assumptions C20_fmt_prec_model_accurate.
+Print Assumptions C20_names.
+
+(* ---- the decimal exponent the {:.14e} model computes (bit-length estimate * 1233/4096, corrected by
+        at most 8 unit steps) IS floor(log10 |x|) for every VALID double (the estimate is checked
+        exhaustively over the 2110 bit-length differences binary64 allows; fuel 8 is not enough for
+        arbitrary (m, e) pairs, which is why validity is assumed) ---- *)
+Theorem C20_e10_model_exact : forall s m e N D,
+  valid (S754_finite s m e) -> mag_frac m e = (N, D) ->
+  (p10 (e10_frac N D) <= IZR N / IZR D < p10 (e10_frac N D + 1))%R /\ -340 <= e10_frac N D <= 320.
+Proof. exact e10_frac_spec. Qed.
+Check C20_e10_model_exact : forall s m e N D,
+  valid (S754_finite s m e) -> mag_frac m e = (N, D) ->
+  (p10 (e10_frac N D) <= IZR N / IZR D < p10 (e10_frac N D + 1))%R /\ -340 <= e10_frac N D <= 320.
+Print Assumptions C20_e10_model_exact.
+Print Assumptions C20_names.
+
+(* ---- {:.14e}: for every valid finite double in a decade the model prints  -?d.d{14}e<k>  whose
+        exponent parse::<i32> reads back and whose value is x correctly rounded to 15 significant
+        digits (error <= 1/2 unit of the 15th digit; carry 9.99..95 -> 1.00..0e(k+1) included):
+        the first hypothesis of C20_accuracy, for valid x ---- *)
+Theorem C20_fmt_exp14_model_correct : forall x k,
+  valid x -> is_finite x = true -> in_decade x k ->
+  exists ms es kk, split_once "e" (fmt_exp14_exec x) = Some (ms, es) /\ mant14_shape ms = true /\
+    parse_i32 es = Some kk /\
+    (Qabs (denote_plain ms * Qpower (10 # 1) kk - num_to_Q x) <= (1 # 2) * Qpower (10 # 1) (k - 14)%Z)%Q.
+Proof. exact fmt_exp14_exec_correct. Qed.
+Check C20_fmt_exp14_model_correct : forall x k,
+  valid x -> is_finite x = true -> in_decade x k ->
+  exists ms es kk, split_once "e" (fmt_exp14_exec x) = Some (ms, es) /\ mant14_shape ms = true /\
+    parse_i32 es = Some kk /\
+    (Qabs (denote_plain ms * Qpower (10 # 1) kk - num_to_Q x) <= (1 # 2) * Qpower (10 # 1) (k - 14)%Z)%Q.
+Print Assumptions C20_fmt_exp14_model_correct.
+Print Assumptions C20_names.
+
+(* ---- parse::<f64>: the model's rn_ratio s N D is the IEEE round-to-nearest-even double of N/D
+        (Flocq: Fdiv_core_correct + binary_round_aux_correct'), finite unless the rounding overflows ---- *)
+Theorem C20_parse_model_nearest : forall s N D, 0 < N -> 0 < D ->
+  let v := (IZR N / IZR D)%R in
+  valid (rn_ratio s N D) /\
+  ((Rabs (rnd64 v) < bpow radix2 1024)%R ->
+   RV (rn_ratio s N D) = cond_Ropp s (rnd64 v) /\ is_finite (rn_ratio s N D) = true).
+Proof. exact rn_ratio_correct. Qed.
+Check C20_parse_model_nearest : forall s N D, 0 < N -> 0 < D ->
+  let v := (IZR N / IZR D)%R in
+  valid (rn_ratio s N D) /\
+  ((Rabs (rnd64 v) < bpow radix2 1024)%R ->
+   RV (rn_ratio s N D) = cond_Ropp s (rnd64 v) /\ is_finite (rn_ratio s N D) = true).
+Print Assumptions C20_parse_model_nearest.
+Print Assumptions C20_names.
+
+(* ---- parse::<f64> of a 15-digit mantissa text is within 2e-15 of it: the second hypothesis of
+        C20_accuracy ---- *)
+Theorem C20_parse_model_close : forall t, mant14_shape t = true ->
+  exists m, parse_f64_exec t = Some m /\ is_finite m = true /\
+    (Qabs (num_to_Q m - denote_plain t) <= 2 # 1000000000000000)%Q.
+Proof. exact parse_f64_exec_close. Qed.
+Check C20_parse_model_close : forall t, mant14_shape t = true ->
+  exists m, parse_f64_exec t = Some m /\ is_finite m = true /\
+    (Qabs (num_to_Q m - denote_plain t) <= 2 # 1000000000000000)%Q.
+Print Assumptions C20_parse_model_close.
+Print Assumptions C20_names.
+
+(* ---- THE ACCURACY CLAUSE FOR THE EXECUTABLE MODEL (= C20_accuracy_full): for every valid finite
+        non-zero double the text produced by format_display_number running on the executable library
+        models is less than one unit of the 15th significant digit away from x.  Only hypothesis:
+        log10_sane (libm's log10 is off by less than one at the floor). ---- *)
+Theorem C20_accuracy_exec : forall log10, log10_sane log10 ->
+  forall x t, valid_binary prec emax x = true -> is_finite x = true -> neqb x nzero = false ->
+    format_display_number log10 powi_exec fmt_prec_exec fmt_exp14_exec parse_f64_exec true x = Ok t ->
+    accurate15 x t.
+Proof. exact display_accurate_exec. Qed.
+Check C20_accuracy_exec : forall log10, log10_sane log10 ->
+  forall x t, valid_binary prec emax x = true -> is_finite x = true -> neqb x nzero = false ->
+    format_display_number log10 powi_exec fmt_prec_exec fmt_exp14_exec parse_f64_exec true x = Ok t ->
+    accurate15 x t.
+Print Assumptions C20_accuracy_exec.
+Print Assumptions C20_names.
+Lemma C20_accuracy_full_holds : C20_accuracy_full.
+Proof. exact display_accurate_exec. Qed.
+
+(* ---- log10_sane is satisfiable: a log10 returning floor(log10 a) exactly, as a double ---- *)
+Example C20_hyp_log10_satisfiable : log10_sane log10_floor_model.
+Proof. exact log10_floor_model_sane. Qed.
+
+(* ---- ... and with that exact log10 NO hypothesis is left: the display algorithm of values.rs, run on
+        exact models of every library call it makes, is accurate to 15 significant digits for every
+        valid finite non-zero double ---- *)
+Theorem C20_accuracy_exact_library : forall x t,
+  valid_binary prec emax x = true -> is_finite x = true -> neqb x nzero = false ->
+  format_display_number log10_floor_model powi_exec fmt_prec_exec fmt_exp14_exec parse_f64_exec true x = Ok t ->
+  accurate15 x t.
+Proof. exact display_accurate_exact_log10. Qed.
+Check C20_accuracy_exact_library : forall x t,
+  valid_binary prec emax x = true -> is_finite x = true -> neqb x nzero = false ->
+  format_display_number log10_floor_model powi_exec fmt_prec_exec fmt_exp14_exec parse_f64_exec true x = Ok t ->
+  accurate15 x t.
+Print Assumptions C20_accuracy_exact_library.
+Print Assumptions C20_names.
+
 (* REFUTED on the code before /repo commit 60da55e (fx = false), finding C20-F1 (now fixed):
    x = 999999999999998.875 (bits 430c6bf52633fff7).  f64::log10 returns 15.0 both on x and on
    the rounded value 1e15 (these two table entries are re-validated against the real function
